@@ -49,6 +49,12 @@ def structures(tier):
     for n in sorted(hs):
         if n.endswith('_nocancel'):
             sts.append({'kind': 'twin', 'name': n, 'lookups': 0})
+            if tier == 'thorough' or sweep.weight({'name': n}) == 1:
+                sts.append({'kind': 'twin', 'name': n, 'lookups': 0, 'after': 'base'})
+                sts.append({'kind': 'twin', 'name': n, 'lookups': 0, 'after': 'twin'})
+            else:
+                sts.append({'kind': 'twin', 'name': n, 'lookups': 0, 'after': 'base', 'failing': True})
+                sts.append({'kind': 'twin', 'name': n, 'lookups': 0, 'after': 'twin', 'failing': True})
             if tier == 'thorough':
                 sts.append({'kind': 'twin', 'name': n, 'lookups': 1, 'len': 4})
     return sts
@@ -158,8 +164,17 @@ def run_twin(ctx, st):
         for i in range(st['len']):
             ctx.assume(And(text[i] != 0, text[i] < 0x80, text[i] != 0x22, text[i] != 0x5c))
         lookups = [(text, ctx.int('vnode'))]
-    o1 = sweep.run_window(ctx, base, a, r, lookups)
-    o2 = sweep.run_window(ctx, name, a, r, lookups)
+    prior = []
+    if st.get('after'):
+        # the same parser handled another call of the base (or of the twin) before - possibly one the decoder rejects
+        b = [ctx.int('b%d' % i) for i in range(4)]
+        prior = [(base if st['after'] == 'base' else name, b, [0, 0, 0, 0])]
+        if st.get('failing'):
+            # only earlier calls the decoder rejects (keeps decoders with hundreds of argument classes affordable)
+            o0 = sweep.run_window(ctx, prior[0][0], b, [0, 0, 0, 0])
+            ctx.assume(o0.kind != 'text')
+    o1 = sweep.run_window(ctx, base, a, r, lookups, prior=prior)
+    o2 = sweep.run_window(ctx, name, a, r, lookups, prior=prior)
     if o1.kind != 'text' or o2.kind != 'text':
         ctx.check(L + '/same-outcome', o1.kind == o2.kind and type(o1.exc) is type(o2.exc),
                   '%s: %s / %s: %s' % (base, o1.kind, name, o2.kind))
